@@ -364,7 +364,8 @@ def gl5(prog):
             else:
                 fed.append(names.pop())
     if sorted(fed) != ["f", "g", "h"]:
-        errs.append("hash feeds %s, expected exactly f, g, h" % fed)
+        # nothing fed in the body itself: the feeding happens in a closure / fold the rule does not read
+        errs.append("%shash feeds %s, expected exactly f, g, h" % ("?" if not fed else "", fed))
     out = [inst("GL", "%s:GL5:key-hash" % fn.npath, VIOLATION if errs else OK, fn, None,
                 "; ".join(errs) if errs else "hash = FxHash(f, g, h) of the standardised triple only")]
     return out
